@@ -1,6 +1,7 @@
 from __future__ import annotations
 
 import enum
+import types
 import inspect
 import logging
 import sys
@@ -148,9 +149,10 @@ class WrappedField:
     @cached_property
     def is_optional(self):
         origin = get_origin(self.resolved_type)
-        if origin not in [Union, Optional]:
+        # Optional[X], Union[X, None] / Union[None, X] and the X | None spelling are the same type
+        if origin not in [Union, Optional, types.UnionType]:
             return False
-        if origin == Union:
+        if origin in (Union, types.UnionType):
             args = get_args(self.resolved_type)
             return len(args) == 2 and NoneType in args
         return True
@@ -160,7 +162,12 @@ class WrappedField:
         if not self.is_container and not self.is_optional:
             raise ValueError("Field is not a container")
         if self.is_optional:
-            return get_args(self.resolved_type)[0]
+            # the argument that is not None, wherever it is written
+            return next(
+                argument
+                for argument in get_args(self.resolved_type)
+                if argument is not NoneType
+            )
         else:
             try:
                 return get_args(self.resolved_type)[0]
